@@ -5,7 +5,7 @@ from core import World, hx, Line, parse_fs
 from gen import Gen, mode_line, cfg_line
 from suites import run_suite, parse_snap, exp_silent
 
-LEAN_MODULES = ['GoSnaps.Props.C08', 'GoSnaps.Props.Tie.Skip', 'GoSnaps.Props.Tie.TestID', 'GoSnaps.Props.Tie.CleanIO', 'GoSnaps.Props.Tie.CleanTopIO1', 'GoSnaps.Props.Tie.CleanTopIO2', 'GoSnaps.Props.Tie.CleanTopIO3', 'GoSnaps.Props.Tie.CleanTopIO', 'GoSnaps.Props.Tie.EndToEndSkip']
+LEAN_MODULES = ['GoSnaps.Props.C08', 'GoSnaps.Props.Tie.Skip', 'GoSnaps.Props.Tie.TestID', 'GoSnaps.Props.Tie.CleanIO', 'GoSnaps.Props.Tie.CleanTopIO1', 'GoSnaps.Props.Tie.CleanTopIO2', 'GoSnaps.Props.Tie.CleanTopIO3', 'GoSnaps.Props.Tie.CleanTopIO', 'GoSnaps.Props.Tie.EndToEndSkip', 'GoSnaps.Props.Tie.Wrappers']
 
 TESTS = ['TestA/returns_(nil)', 'TestA/a+b', 'TestB/items[0]', 'TestB/open(', 'TestAPI', 'TestAPI//users', 'TestAPI//users/list', 'TestAPI/v1./x', 'TestV2', 'TestA/case_2', 'TestA/x#01', 'TestA', 'TestA/x', 'TestA/x/deep', 'TestA/y', 'TestAB', 'TestAB/x', 'TestB', 'TestB/A_case', 'TestB/sub', 'TestC/TestA', 'TestZed']
 PATTERNS = ['', '', 'TestA', '^TestA$', 'TestA/x', 'TestA|TestB', 'A', 'TestB/sub', '^TestZ', 'Test[AB]$', 'TestA/[xy]', 'Nothing', 'TestA$/x$', '(TestA|TestZed)/x']
